@@ -30,7 +30,9 @@ RULE = ("histories = one reporter dictionary (model / agent / agent-type reporte
         "and 70 USER-CODE histories (oracle-only): reporters of every form (property through an attribute name, function, bound method "
         "of the model, [function, args]) at model / agent / agent-type level that raise StopIteration (bare next()), IndexError, KeyError, "
         "AttributeError, TypeError, GeneratorExit or a custom exception for the first / a middle / the last / all agents in some states, "
-        "or re-enter the API during collect (add_table_row, removing / creating an agent); the caller catches and carries on; "
+        "or re-enter the API during collect (add_table_row, removing / creating an agent); the caller catches and carries on; between "
+        "collects user code takes copy.copy(model.agents) / select() / shuffle() / a copy of agents_by_type[T] and changes THE COPY "
+        "(discard, remove, add, in-place select / sort / shuffle) - registration is taken from the history's own ledger; "
         "a second DataCollector built from the same dictionaries collects "
         "at the end; non-trivial = at least 2 collects and one reporter; distinct = by SHA1 of the history")
 TRUSTED_BASE = [
@@ -293,6 +295,8 @@ def _gen_usercode_case(rng):
             nxt += 1
         elif live:
             ops.append(["setx", rng.choice(live), rng.randint(0, 99)])
+        if rng.random() < 0.2:
+            ops.append(["copymut", rng.randrange(6), rng.randrange(5)])   # a copy of model.agents is taken and changed
     ops += [["disarm"], ["reenter", 0], ["collect"], ["step"], ["collect"]]      # the NEXT collects must be complete
     return {"kind": "usercode", "exc": exc, "level": level, "form": form, "n": n, "ops": ops}
 
@@ -1173,6 +1177,29 @@ def _run_usercode(case):
                 for a in reg:
                     if a.unique_id == op[1]:
                         a.x = op[2]
+            elif kind == "copymut":
+                # user code "operates on a copy" of model.agents (Model docstring) and changes THE COPY; registration is what the
+                # create / remove calls of this history say (reg), never what model.agents shows
+                import copy
+
+                mode = op[1]
+                c = [lambda: copy.copy(model.agents), lambda: model.agents.select(), lambda: model.agents.shuffle(),
+                     lambda: copy.copy(model.agents_by_type[UA]) if UA in model.agents_by_type else copy.copy(model.agents),
+                     lambda: model.agents.select(), lambda: copy.copy(model.agents)][mode % 6]()
+                live = list(c)
+                if mode % 6 in (0, 2, 3) and live:
+                    c.discard(live[op[2] % len(live)])
+                elif mode % 6 == 1 and live:
+                    c.remove(live[-1])
+                elif mode % 6 == 4:
+                    c.select(lambda a: False, inplace=True)      # empties the copy in place
+                    if live:
+                        c.add(live[0])
+                else:
+                    c.shuffle(inplace=True)
+                    c.sort("x", ascending=False, inplace=True)
+                    if live:
+                        c.discard(live[0])
             elif kind == "collect":
                 st["did"], st["raised_in_reporter"], st["returns"] = False, False, {}
                 a0, t0 = recs()
